@@ -77,7 +77,7 @@ def main(tier):
     for cfg in ('shipped', 'kissel'):
         libs[cfg] = execlib.Lib(cfg)
         Q, S = c16.build_queries(libs[cfg], rng, 6 if tier == 'quick' else 20)
-        Q = Q[Q['fn'] != 2000]
+        Q = Q[Q['fn'] < 2000]
         queries[cfg] = (Q, S)
         for fl in ('tsan', 'plain'):
             mons[(cfg, fl)] = build.harness(cfg, fl, 'thrmon')
